@@ -149,6 +149,22 @@ def corpus(seed):
                                 ('select cast(a as float) from t limit 2 offset 1', 'mssql-object'), ('select cast(a as date), b from t', 'sqlite-object'),
                                 ('insert into t (a, b) values (1, 2), (3, 4)', 'mssql-object'), ('select cast(a as float) from t', 'mssql')]):
         out.append((f'render-obj:{i}', 'render', (s, d)))
+    # casts to every type name, per dialect (a dialect compiler may warn about or drop a cast it cannot express)
+    k = 0
+    for ty in ('boolean', 'bool', 'float', 'int', 'integer', 'date', 'datetime', 'char', 'varchar', 'text', 'double', 'decimal', 'json', 'bigint', 'timestamp'):
+        for d in ('mysql', 'postgresql', 'sqlite', 'mssql'):
+            if (k + len(ty)) % 2 == 0 or ty in ('boolean', 'bool'):
+                form = [f'select cast(a as {ty}) as c, b from t1 where c = 1', f'select t.a::{ty} from t1 as t where t.b in (1, 2) order by t.c limit 5'][k % 2]
+                out.append((f'render-cast:{ty}:{d}', 'render', (form, d)))
+            k += 1
+    # joins in which optional aliases are left out (tables, nested selects, models)
+    for i, s_ in enumerate(['select * from int1.t1 a join (select * from int2.t2 where y > 1) on 1 = 1',
+                            'select a.x from (select * from int2.t2) join int1.t1 a join mindsdb.m1 m',
+                            'select * from int1.t1 join int2.t2 on t1.id = t2.id', 'select t1.a, m1.y from int1.t1 join mindsdb.m1',
+                            'select * from (select * from int1.t1) join (select * from int2.t2)',
+                            'select x.id from (select id from int1.t1 where a in (select b from int2.t2)) as x join int2.t2 on x.id = t2.id',
+                            'select * from int1.t1 join proj.m2 where t1.a > 1', 'select * from mindsdb.m1 join int1.t1']):
+        out.append((f'plan-noalias:{i}', 'plan', s_))
     # prepared statements: the column-discovery steps of joins (order of the steps is part of the result)
     for i, s in enumerate(['SELECT o.id, c.name, p.title FROM int1.orders AS o JOIN int1.customers AS c ON o.cid = c.id JOIN int1.products AS p ON o.pid = p.id WHERE o.id = ?',
                            'SELECT * FROM int1.orders AS o JOIN int1.customers AS c ON o.cid = c.id',
@@ -345,7 +361,14 @@ def axis_threads(ctx, items, gold, rounds):
             shared = {'catalog': fresh_catalog(), 'renders': {d: SqlalchemyRender(d) for d in ('mysql', 'postgresql', 'sqlite', 'mssql')}}
             # few inputs, repeated by many threads; model-version inputs always in the mix
             pm = [it for it in items if it[0].startswith('plan-model')]
-            if rnd % 2 == 1:
+            if rnd % 4 == 2:
+                # focused round: every thread renders (shared renderer objects, casts of every type - what the dialect
+                # compilers warn about or leave out is decided while other renders are in flight)
+                inj.focus = os.sep + os.path.join('mindsdb_sql', 'render') + os.sep
+                pool = [it for it in items if it[1] == 'render']
+                work = [[pool[r.randrange(len(pool))] for _ in range(14)] for _ in range(NTHREADS)]
+                acc.count('focused_rounds_render')
+            elif rnd % 2 == 1:
                 # focused round: every thread plans the same models in different versions against ONE shared catalog,
                 # yields only inside the planner
                 inj.focus = os.sep + os.path.join('mindsdb_sql', 'planner') + os.sep
